@@ -31,7 +31,10 @@
 #include <nitro/except/raise.hpp>
 
 #include <array>
+#include <iterator>
+#include <memory>
 #include <type_traits>
+#include <utility>
 
 namespace nitro
 {
@@ -291,9 +294,9 @@ namespace lang
             return &data_[0];
         }
 
-        constexpr iterator rbegin() noexcept
+        constexpr reverse_iterator rbegin() noexcept
         {
-            return &data_[size_ - 1];
+            return reverse_iterator(end());
         }
 
         constexpr iterator end() noexcept
@@ -301,9 +304,9 @@ namespace lang
             return &data_[size_];
         }
 
-        constexpr iterator rend() noexcept
+        constexpr reverse_iterator rend() noexcept
         {
-            return &data_[-1];
+            return reverse_iterator(begin());
         }
 
         constexpr const_iterator begin() const noexcept
@@ -311,9 +314,9 @@ namespace lang
             return &data_[0];
         }
 
-        constexpr const_iterator rbegin() const noexcept
+        constexpr const_reverse_iterator rbegin() const noexcept
         {
-            return &data_[size_ - 1];
+            return const_reverse_iterator(end());
         }
 
         constexpr const_iterator end() const noexcept
@@ -321,9 +324,9 @@ namespace lang
             return &data_[size_];
         }
 
-        constexpr const_iterator rend() const noexcept
+        constexpr const_reverse_iterator rend() const noexcept
         {
-            return &data_[-1];
+            return const_reverse_iterator(begin());
         }
 
         constexpr const_iterator cbegin() const noexcept
@@ -331,9 +334,9 @@ namespace lang
             return &data_[0];
         }
 
-        constexpr const_iterator crbegin() const noexcept
+        constexpr const_reverse_iterator crbegin() const noexcept
         {
-            return &data_[size_ - 1];
+            return const_reverse_iterator(cend());
         }
 
         constexpr const_iterator cend() const noexcept
@@ -341,9 +344,9 @@ namespace lang
             return &data_[size_];
         }
 
-        constexpr const_iterator crend() const noexcept
+        constexpr const_reverse_iterator crend() const noexcept
         {
-            return &data_[-1];
+            return const_reverse_iterator(cbegin());
         }
 
         constexpr void erase(iterator pos)
